@@ -115,14 +115,14 @@ theorem find?_scq_proj {l l' : List Scq} (h : l'.map (fun q => (q.id, q.mayBeRem
 structure CFrame (s s' : State) : Prop where
   cleanup : s'.cleanup = s.cleanup
   workers : s'.workers.map (fun w => (w.scq, w.id, w.inSync)) = s.workers.map (fun w => (w.scq, w.id, w.inSync))
-  scqs : s'.scqs.map (fun q => (q.id, q.mayBeRemoved)) = s.scqs.map (fun q => (q.id, q.mayBeRemoved))
+  scqs : ∀ q, (s'.scq? q).map (·.mayBeRemoved) = (s.scq? q).map (·.mayBeRemoved)
   ops : s'.ops = s.ops
   tasks : ∀ k, (s'.task? k).map (fun t => (t.response.isSome, t.ops)) = (s.task? k).map (fun t => (t.response.isSome, t.ops))
 
-theorem CFrame.refl (s : State) : CFrame s s := ⟨rfl, rfl, rfl, rfl, fun _ => rfl⟩
+theorem CFrame.refl (s : State) : CFrame s s := ⟨rfl, rfl, fun _ => rfl, rfl, fun _ => rfl⟩
 
 theorem CFrame.trans {a b c : State} (h1 : CFrame a b) (h2 : CFrame b c) : CFrame a c :=
-  ⟨h2.cleanup.trans h1.cleanup, h2.workers.trans h1.workers, h2.scqs.trans h1.scqs, h2.ops.trans h1.ops,
+  ⟨h2.cleanup.trans h1.cleanup, h2.workers.trans h1.workers, fun q => (h2.scqs q).trans (h1.scqs q), h2.ops.trans h1.ops,
    fun k => (h2.tasks k).trans (h1.tasks k)⟩
 
 theorem CInv.frame {x : Ex} {s s' : State} (h : CInv x s) (f : CFrame s s') : CInv x s' := by
@@ -139,24 +139,22 @@ theorem CInv.frame {x : Ex} {s s' : State} (h : CInv x s) (f : CFrame s s') : CI
     exact ⟨wk', hm', e.1, e.2.1, e.2.2⟩
   have qfwd : ∀ q sq', s'.scq? q = some sq' → ∃ sq, s.scq? q = some sq ∧ sq.mayBeRemoved = sq'.mayBeRemoved := by
     intro q sq' e
-    have := find?_scq_proj f.scqs q
-    simp only [State.scq?] at e
+    have := f.scqs q
     rw [e] at this
-    cases hs : s.scqs.find? (fun y => y.id = q) with
+    cases hs : s.scq? q with
     | none => rw [hs] at this; cases this
     | some sq =>
-      rw [hs] at this; simp only [Option.map_some, Option.some.injEq, Prod.mk.injEq] at this
-      exact ⟨sq, hs, this.2.symm⟩
+      rw [hs] at this; simp only [Option.map_some, Option.some.injEq] at this
+      exact ⟨sq, rfl, this.symm⟩
   have qbwd : ∀ q sq, s.scq? q = some sq → ∃ sq', s'.scq? q = some sq' ∧ sq'.mayBeRemoved = sq.mayBeRemoved := by
     intro q sq e
-    have := find?_scq_proj f.scqs q
-    simp only [State.scq?] at e
+    have := f.scqs q
     rw [e] at this
-    cases hs : s'.scqs.find? (fun y => y.id = q) with
+    cases hs : s'.scq? q with
     | none => rw [hs] at this; cases this
     | some sq' =>
-      rw [hs] at this; simp only [Option.map_some, Option.some.injEq, Prod.mk.injEq] at this
-      exact ⟨sq', hs, this.2⟩
+      rw [hs] at this; simp only [Option.map_some, Option.some.injEq] at this
+      exact ⟨sq', rfl, this⟩
   have hop : ∀ o, s'.op? o = s.op? o := by intro o; simp [State.op?, f.ops]
   have htask' : ∀ k t, s.task? k = some t → ∃ t', s'.task? k = some t' ∧ t'.response.isSome = t.response.isSome ∧ t'.ops = t.ops := by
     intro k t e
